@@ -9,6 +9,10 @@
     P <cps pat> <now> <cps input> → parsed millisecond instant   | err | range (year argument of time.Date outside 1970..2200: UnixNano overflow not modelled)
                              (fresh object; signed field texts as strconv.Atoi reads them)
     Q <cps pat> <now1> <cps input1> <now2> <cps input2> …  → r1;r2;…  the same for successive Parse calls on ONE object
+    R <cps pat> <now1> <cps input1> …  → the same history if Parse cleared its map on entry (parseHistoryReset)
+    N <clock> <delta> now|ts|ymd|du|sst:<srv>  → one step of the package state machine (Golib.Cal.Pkg) at that clock and delta
+    FZ <cps pat> <t> <off>            → code points of format in a zone of constant offset off (ms)
+    PZ <cps pat> <now> <cps input> <off> → Parse with time.Local at constant offset off
     T <cps pat> <t>       →  Spec: t truncated to the fields of pat
 
   strings travel as comma separated code points, the empty string as `-`.
@@ -16,6 +20,8 @@
 import Golib.Cal.Helper
 import Golib.Cal.DateFormat
 import Golib.Cal.DateFormatObj
+import Golib.Cal.ObjHistory
+import Golib.Cal.Pkg
 import Driver.Common
 
 open Cal Drv
@@ -80,6 +86,50 @@ def answer (line : String) : String :=
         | _ => acc.reverse
       ";".intercalate (go {} calls [])
     | none => "bad-op"
+  | "R" :: pat :: calls =>
+    match parseCps pat with
+    | some pat =>
+      let rec goR (cs : List String) (acc : List String) : List String :=
+        match cs with
+        | now :: inp :: rest =>
+          match parseNat now, parseCps inp with
+          | some now, some inp => goR rest (showRes (parseObjReset {} pat (fieldsOf now) inp) :: acc)
+          | _, _ => ("bad-op" :: acc).reverse
+        | _ => acc.reverse
+      ";".intercalate (goR calls [])
+    | none => "bad-op"
+  | ["N", clock, delta, what] =>
+    match parseInt clock, parseInt delta with
+    | some clock, some delta =>
+      let call : Option Call :=
+        if what == "now" then some .now else if what == "ts" then some .timeStampNow
+        else if what == "ymd" then some .ymdNow else if what == "du" then some .dateUnitNow
+        else match what.splitOn ":" with
+          | ["sst", srv] => (parseInt srv).map .setServerTime
+          | _ => none
+      match call with
+      | some c =>
+        match (step clock ⟨delta⟩ c).2 with
+        | .str o => optS o
+        | .label o => o.getD "panic"
+        | .int (some v) => toString v
+        | .int none => "panic"
+        | .unit => "unit"
+      | none => "bad-op"
+    | _, _ => "bad-op"
+  | ["FZ", pat, t, off] =>
+    match parseCps pat, parseNat t, parseInt off with
+    | some pat, some t, some off => cpsOf (formatIn off pat t)
+    | _, _, _ => "bad-op"
+  | ["PZ", pat, now, inp, off] =>
+    match parseCps pat, parseNat now, parseCps inp, parseInt off with
+    | some pat, some now, some inp, some off =>
+      let r := parseObj {} pat (fieldsOfIn off now) inp
+      match showRes r with
+      | "err" => "err"
+      | "range" => "range"
+      | _ => match (parseObjIn off {} pat now inp).2 with | some v => toString v | none => "err"
+    | _, _, _, _ => "bad-op"
   | ["T", pat, t] =>
     match parseCps pat, parseNat t with
     | some pat, some t => toString (truncTo pat t)
